@@ -53,7 +53,7 @@ SHAPE_OF_POLICY = [('policy7release', 'rel'), ('policy5debug', 'dbg'), ('nohash_
                    ('vmap_policy', 'vmap'), ('ind_policy', 'ind'), ('foreign_policy', 'foreign')]
 
 ALLOCATORS = {'_Znwm', '_Znam', 'malloc', 'calloc', '_ZnwmSt11align_val_t', '_ZnamSt11align_val_t',
-              '_ZnwmRKSt9nothrow_t', '_ZnamRKSt9nothrow_t'}
+              '_ZnwmRKSt9nothrow_t', '_ZnamRKSt9nothrow_t', '__cxa_allocate_exception'}
 IGNORED_INTRINSICS = ('llvm.lifetime.', 'llvm.dbg.', 'llvm.assume', 'llvm.experimental.noalias.scope.decl',
                       'llvm.invariant.', 'llvm.donothing', 'llvm.var.annotation', 'llvm.ptr.annotation',
                       'llvm.expect', 'llvm.objectsize', 'llvm.launder.invariant.group',
@@ -697,7 +697,9 @@ class Analyzer:
             return [('Unknown', 'recursion through ' + fname[:100])], {'U'}
         f = self.m.funcs[fname]
         self.stack.append(fname)
-        bad = self.error_only(f)
+        # routes that END in a throw (errcall_*: an unresolvable call under a throwing error handler) are analysed in full:
+        # for them the path to __cxa_throw is the call path
+        bad = self.error_only(f) if getattr(self, 'collapse', True) else set()
         env = {}
         for k, (pn, kind) in enumerate(f.params):
             env[pn] = set(argtags[k]) if k < len(argtags) else {'U'}
@@ -900,6 +902,26 @@ def shape_of_mangled(name):
     return 'other'
 
 
+def budgeted(fn, seconds):
+    """run fn() under a wall-clock budget; an analysis that does not finish is reported as Unknown (which fails every predicate)"""
+    import signal
+
+    class Timeout(Exception):
+        pass
+
+    def onalarm(sig, frm):
+        raise Timeout()
+    old = signal.signal(signal.SIGALRM, onalarm)
+    signal.alarm(seconds)
+    try:
+        return fn()
+    except Timeout:
+        return [('Unknown', 'analysis budget of %d s exceeded' % seconds)]
+    finally:
+        signal.alarm(0)
+        signal.signal(signal.SIGALRM, old)
+
+
 def translate(variants, repo, use_cache=True):
     routes = []          # dicts
     keys = []
@@ -914,8 +936,19 @@ def translate(variants, repo, use_cache=True):
         names = sorted(n for n in m.funcs if re.match(r'c16_\w+__\w+$', n))
         for n in names:
             mm = re.match(r'c16_(\w+?)__(\w+)$', n)
+            an.collapse = not mm.group(1).startswith('errcall')
             routes.append({'name': mm.group(1), 'shape': mm.group(2), 'variant': v, 'function': n,
                            'accesses': an.route(n)})
+            an.collapse = True
+        # what the dispatch jump lands in when a call under thr_policy cannot be resolved: the method's error stubs, analysed
+        # in full (they end in a throw through the policy's error facet)
+        for n in sorted(m.funcs):
+            hm = re.search(r'reg_thr7(gap|amb)_key.*thr_policy.*?(?:23(not_implemented)_handler|17(ambiguous)_handler)', n)
+            if hm and v in ('O2', 'O2assert', 'O1'):      # at -O0 the std::visit / std::variant machinery is not inlined
+                an.collapse = False
+                routes.append({'name': 'errstub_%s_%s' % (hm.group(1), hm.group(2) or hm.group(3)), 'shape': 'thr', 'variant': v,
+                               'function': n, 'accesses': budgeted(lambda: an.route(n), 60)})
+                an.collapse = True
         thunks = sorted(n for n in m.funcs if 'detail5thunkI' in n)
         cnt = {}
         for n in thunks:
